@@ -190,7 +190,18 @@ pub fn classify(errs: &sle::error::Errors) -> (Class, Vec<(String, u32)>) {
 }
 
 /// Runs `f` with a fresh controller carrying `plan` installed; returns its result and the controller.
+/// Number of runs after which the subject had added something to the (per-thread) table of slot hashes that the
+/// harness keeps between runs; every run starts from the pristine table.
+pub static LEARNED_HASHES: std::sync::atomic::AtomicU64 = std::sync::atomic::AtomicU64::new(0);
+
+fn pristine_tables() {
+    if verif_hooks::restore_cached_hashes(sle::tc::lift::recognise_hashed_slots::SLOT_COUNT) {
+        LEARNED_HASHES.fetch_add(1, std::sync::atomic::Ordering::Relaxed);
+    }
+}
+
 pub fn with_controller<T>(plan: &Plan, f: impl FnOnce() -> T) -> (Result<T, String>, Controller) {
+    pristine_tables();
     verif_hooks::install(Controller::new(plan.clone()));
     let r = std::panic::catch_unwind(std::panic::AssertUnwindSafe(f));
     let ctl = verif_hooks::uninstall().unwrap_or_default();
@@ -247,6 +258,7 @@ pub fn finish_obs(r: Result<sle::error::Result<StorageLayout>, String>, ctl: Con
 /// nondeterminism.
 pub fn analyze_natural(bytes: &[u8], vm: sle::vm::Config, watchdog: DynWatchdog) -> Obs {
     let _ = verif_hooks::uninstall();
+    pristine_tables();
     let r = std::panic::catch_unwind(std::panic::AssertUnwindSafe(|| {
         sle::new(contract(bytes), vm, sle::tc::Config::default(), watchdog).analyze()
     }));
